@@ -1326,7 +1326,19 @@ def np_maxmin2(which):
         a, b = args[0], args[1]
         pick = (lambda x, y: z3.If(x >= y, x, y)) if which == "max" else (lambda x, y: z3.If(x <= y, x, y))
         if isinstance(a, pymat.SMat) or isinstance(b, pymat.SMat):
-            raise OutsideSubset("np.maximum on 2-D arrays")
+            Ra, Ca, ea = pymat.shape_of(interp, a)
+            Rb, Cb, eb = pymat.shape_of(interp, b)
+            R_, C_ = pymat._bdim(interp, Ra, Rb), pymat._bdim(interp, Ca, Cb)
+
+            def fn(r, c_):
+                x, y = _coerce2(ea(pymat._idx(Ra, r), pymat._idx(Ca, c_)), eb(pymat._idx(Rb, r), pymat._idx(Cb, c_)))
+                return pick(x, y)
+            res = pymat.build(interp, R_, C_, fn, "real", prefer=(a.conc_axis if isinstance(a, pymat.SMat) else b.conc_axis))
+            out = kw.get("out")
+            if out is not None:
+                pymat._overwrite(interp, out, res)
+                return out
+            return res
         if is_scalar(a) and is_scalar(b):
             if not is_sym(a) and not is_sym(b):
                 return max(a, b) if which == "max" else min(a, b)
@@ -1410,6 +1422,37 @@ def np_argextreme(which):
         interp.ghost["extremes"].append((which, get(at), at, get, n))
         return Sym(at)
     return f
+
+
+def np_arange(interp, args, kw):
+    """np.arange(a, b, step) with symbolic bounds and step > 0: the points a + j*step < b (axiom)."""
+    if len(args) == 1:
+        a, b, step = 0, args[0], 1
+    elif len(args) == 2:
+        a, b, step = args[0], args[1], 1
+    else:
+        a, b, step = args[:3]
+    if not any(is_sym(x) for x in (a, b, step)):
+        return np_asarray(interp, [interp.new_list(list(np.arange(a, b, step)))], {})
+    used(interp, "arange")
+    ae, be, se = num_expr(a), num_expr(b), num_expr(step)
+    integral = z3.is_int(ae) and z3.is_int(be) and z3.is_int(se)
+    if not integral:
+        ae, be, se = to_real(ae), to_real(be), to_real(se)
+    cnt = interp.__dict__.setdefault("_narange", [0])
+    cnt[0] += 1
+    m = z3.Int("len!arange%d" % cnt[0])
+    interp.side_obligation("arange step positive", se > 0)
+    conv = (lambda t: t) if integral else z3.ToReal
+    interp.assume(z3.And(m >= 0, z3.Implies(m > 0, ae + conv(m - 1) * se < be), ae + conv(m) * se >= be))
+    return interp.array_from_fn(lambda j: ae + conv(j) * se, m, "int" if integral else "real", "arange")
+
+
+axiom("arange", "np.arange(a, b, step)[j] = a + j*step for the j with a + j*step < b (step > 0)")
+
+
+def np_size(interp, args, kw):
+    return as_len(interp, args[0])
 
 
 def np_sort(interp, args, kw):
@@ -1535,6 +1578,8 @@ def install(interp):
     m[np.amin] = np_extreme("min")
     m[np.amax] = np_extreme("max")
     m[np.sort] = np_sort
+    m[np.arange] = np_arange
+    m[np.size] = np_size
     m[np.argmin] = np_argextreme("min")
     m[np.argmax] = np_argextreme("max")
     m[np.dot] = np_dot_model
